@@ -109,7 +109,7 @@ def bad_rows(prop):
                 out.append((n, f"subscribes upstream but returns no teardown ({r['File']}:{r['Line']})"))
         elif prop == 'C07':
             for g in r['GoStmts'] or []:
-                if g['Kind'] == 'go' and g['CallsUser'] and not g['Recovered'] and n != 'Future':
+                if g['Kind'] == 'go' and g['CallsUser'] and not g['Recovered']:
                     out.append((n, f"goroutine running user code without recover ({r['File']}:{g['Line']})"))
     return out
 
@@ -258,6 +258,8 @@ def replay_known(ctx):
 def replay(ctx, path):
     """re-run the case lines of a replay file on the implementation and the model"""
     mod = load_check(ctx.prop)
+    if hasattr(mod, 'replay'):          # a property whose replay is not a case-by-case diff (C13: race-detector run)
+        return mod.replay(ctx, path)
     if not preamble(ctx, modules=getattr(mod, 'LEAN_MODULES', None)):
         return 2
     lines = [l.strip() for l in open(path if os.path.isabs(path) else os.path.join(R.VERIF, path)) if l.startswith('case ')]
